@@ -150,6 +150,15 @@ def c16_grids(case):
     return dict(reproduced=bool(bad), failing=bad[:3], cases=cnt, statement='fd_derivative exact on polynomials of degree 2*(n//2+m) on every strictly monotone grid')
 
 
+@reg('C15.history')
+def c15_history(case):
+    import numdifftools.fornberg as fb
+    from ndvc.concrete import fd_weights_history_cases
+    cnt, bad = fd_weights_history_cases(fb)
+    return dict(reproduced=bool(bad), failing=bad[:3], calls=cnt,
+                statement='every call in a sequence returns the exact Lagrange-derivative weights of the nodes it was given')
+
+
 @reg('C15.exactw')
 def exactw(case):
     import numdifftools.fornberg as fb
